@@ -116,7 +116,7 @@ def main():
     cfgs = [("laplace", "single_layer", "DP0", "P1", None), ("laplace", "double_layer", "P1", "DP1", None), ("laplace", "hypersingular", "P1", "P1", None),
             ("helmholtz", "single_layer", "P1", "P1", 1.1 + 0.3j), ("maxwell", "electric_field", "RWG", "SNC", 0.9), ("sparse", "identity", "P1", "DP0", None)]
     if not ctx.quick:
-        cfgs += [("laplace", "adjoint_double_layer", "DP1", "P1", None), ("helmholtz", "double_layer", "DP0", "P1", 0.8), ("helmholtz", "adjoint_double_layer", "P1", "DP0", 1.2j + 0.5),
+        cfgs += [("laplace", "adjoint_double_layer", "DP1", "P1", None), ("helmholtz", "double_layer", "DP0", "P1", 0.8), ("helmholtz", "adjoint_double_layer", "P1", "DP0", 0.5 - 1.2j),
                  ("helmholtz", "hypersingular", "P1", "P1", 1.4), ("modified_helmholtz", "single_layer", "DP0", "DP0", 0.7), ("modified_helmholtz", "double_layer", "P1", "P1", 1.3),
                  ("modified_helmholtz", "adjoint_double_layer", "P1", "P1", 0.6), ("modified_helmholtz", "hypersingular", "P1", "P1", 0.9),
                  ("maxwell", "magnetic_field", "RWG", "SNC", 1.1 + 0.2j), ("sparse", "laplace_beltrami", "P1", "P1", None), ("sparse", "identity", "RWG", "SNC", None)]
@@ -283,7 +283,7 @@ def main():
             for p2 in perms:
                 fam_cases.append((kind, p1, p2, t1, t2))
     canon = {}
-    ops2 = [("laplace", "single_layer", "DP1", "DP1", None), ("helmholtz", "double_layer", "DP1", "DP0", 1.2 + 0.3j)]
+    ops2 = [("laplace", "single_layer", "DP1", "DP1", None), ("helmholtz", "double_layer", "DP1", "DP0", 1.2 - 0.3j)]
     if not ctx.quick:
         ops2 += [("laplace", "hypersingular", "DP1", "DP1", None), ("modified_helmholtz", "adjoint_double_layer", "DP0", "DP1", 0.8), ("laplace", "adjoint_double_layer", "DP1", "DP1", None)]
     for kind, p1, p2, t1, t2 in fam_cases:
